@@ -356,6 +356,7 @@ class Interp:
         self.call_depth = 0
         self.steps = 0
         self.max_steps = int(os.environ.get("FVERIF_MAX_STEPS", "50000000"))
+        self.literal_hook = None  # callable(interp, node, float) -> value | None
         self.call_hooks = {}  # (module name, qualname) -> python callable(interp, fn, args, kwargs)
         _INTERP[0] = self
 
@@ -1199,6 +1200,10 @@ class Interp:
     def e_Constant(self, n, env):
         v = n.value
         if isinstance(v, float):
+            if self.literal_hook is not None:
+                r = self.literal_hook(self, n, v)
+                if r is not None:
+                    return r
             return ring._fr(v)
         if isinstance(v, complex):
             raise self.undecided("complex literal")
